@@ -266,6 +266,33 @@ def h_rabin_transducer(ctx):
            r'\A \E': form, r'\E \A': spec.forall(x, form)}[qinit]
     w.oblige('rabin transducer.post: init[impl] == documented initial set (over the LAST iterate zk[-1]) /\\ (_goal = 0 /\\ _hold = none)',
              _valid_all(w, w.term(aut.init['impl']) == z3.And(doc, c == 0, h == K)))
+    # ---- progress (ranking argument of the recurrence part of the liveness proof);
+    # universally quantified over allowed steps, so the open findings about
+    # BLOCKING states (C05-F3, C05-stale-hold) do not affect it
+    tg = [w.term(g) for g in goals]
+    tzk = [w.term(z) for z in zk]
+    w.oblige('rabin transducer.post: progress: the goal counter changes only at its own goal, to (j + 1) mod n_goals',
+             _valid_all(w, z3.Implies(z3.And(impl, tE), z3.Or(
+                 cp == c, *[z3.And(c == j, tg[j], cp == (j + 1) % J) for j in range(J)]))))
+    cpre = cpre_of(ctx)
+    for i in range(K):
+        for j in range(J):
+            alts = list()
+            for t in range(T):
+                basin = tzk[t - 1] if t > 0 else z3.BoolVal(False)
+                rim = z3.And(tzk[t], z3.Not(basin), z3.Not(cpre(tE, tS, basin)))
+                xs = [w.term(x) for x in xkijr[t][i][j]]
+                down = z3.Or(*[z3.And(xs[r], z3.Not(xs[r - 1]), spec.primed(w, xs[r - 1]))
+                               for r in range(1, Lx)]) if Lx > 1 else z3.BoolVal(False)
+                alts.append(z3.And(rim, z3.Not(tg[j]), down))
+                if J == 1:
+                    alts.append(z3.And(rim, tg[j], spec.primed(w, w.term(yki[t][i]))))
+            w.oblige('rabin transducer.post: progress: a step that keeps the persistence index i and the goal counter j moves to a strictly lower attractor layer of goal j in x[t][i][j] (t = the outer layer whose rim holds the state)',
+                     _valid_all(w, z3.Implies(z3.And(impl, tE, h == i, hp == i, c == j, cp == j),
+                                              z3.Or(*alts))))
+    if J > 1:
+        w.canary('rabin transducer canary: the goal counter never advances',
+                 _valid_all(w, z3.Implies(z3.And(impl, tE), cp == c)))
     w.canary('rabin transducer canary: impl == SysAction', _valid_all(w, impl == tS))
 
 
